@@ -216,6 +216,10 @@ type C03Mut struct {
 	NewO    Scalars `json:"new_o"`
 	SetMap  bool    `json:"set_map,omitempty"`
 	MapVal  int64   `json:"map_val,omitempty"`
+	// GrowPtr: the host appends to the pointer-injected slice (which reallocates it) and
+	// assigns a fresh map to the pointer-injected map variable; an injected pointer must
+	// keep referring to the host's variable, not to the collection it held when injected.
+	GrowPtr bool `json:"grow_ptr,omitempty"`
 	// NewFuncs, if set, are re-injected under the names f0, f1, ... (same arity, wider or
 	// other numeric parameter kinds): the same call sites then convert to other types.
 	NewFuncs []C03Func `json:"new_funcs,omitempty"`
@@ -247,6 +251,12 @@ func (m *C03Mut) apply(inj map[string]interface{}, l *obs.Log, reinject func(nam
 	if m.SetO {
 		o.Scalars = m.NewO
 		o.In.Scalars = m.NewPIn
+	}
+	if m.GrowPtr {
+		ps := inj["psli16"].(*[]int16)
+		*ps = append(*ps, int16(m.MapVal), 7, 8, 9, 10, 11, 12, 13, 14)
+		pm := inj["pmsi"].(*map[string]int64)
+		*pm = map[string]int64{"k1": m.MapVal, "k2": 2, "k9": 9}
 	}
 	if m.SetMap {
 		inj["msi"].(map[string]int64)["k1"] = m.MapVal
@@ -766,7 +776,7 @@ func init() {
 			c.Rule = &dsl.Rule{Name: "c03", HasSal: true, Sal: 1, Body: body}
 			if pct(t, "second_execution", 40) {
 				// the host changes the injected objects, then a second rule runs on the same context
-				c.Mut = C03Mut{SwapPIn: pct(t, "mut_swap", 70), NewPIn: smallScalars(t, "mut.pin."), SetO: pct(t, "mut_o", 50), NewO: smallScalars(t, "mut.o."), SetMap: pct(t, "mut_map", 50), MapVal: int64(uni(t, "mut_mapval", -50, 50))}
+				c.Mut = C03Mut{SwapPIn: pct(t, "mut_swap", 70), NewPIn: smallScalars(t, "mut.pin."), SetO: pct(t, "mut_o", 50), NewO: smallScalars(t, "mut.o."), SetMap: pct(t, "mut_map", 50), MapVal: int64(uni(t, "mut_mapval", -50, 50)), GrowPtr: pct(t, "mut_growptr", 50)}
 				if pct(t, "rerun_same_rule", 45) {
 					// the same rule (same compiled call sites) runs again; the functions were
 					// re-injected with other numeric parameter kinds of the same arity
@@ -802,6 +812,9 @@ func init() {
 			if c.Rule2 != nil {
 				rules = append(rules, c.Rule2)
 				x.Class("second-execution-after-host-mutation")
+				if c.Mut.GrowPtr {
+					x.Class("host-reallocated-pointer-injected-slice-and-replaced-pointer-injected-map")
+				}
 			}
 			text, _ := dsl.PrintRules(rules, nil)
 			if tooCostly(x, text) {
